@@ -185,4 +185,23 @@ mod verif_oracle_poplar1 {
             }
         }
     }
+
+    // unit poplar1_aggparam: try_from_prefixes admits prefixes of every length 1..=65536 bits (levels 0..=65535) and nothing longer
+    #[test]
+    fn oracle_agg_param_lengths() {
+        for len in [1usize, 2, 3, 255, 256, 257, 65534, 65535, 65536, 65537, 65538, 70000] {
+            let a = IdpfInput::from_bools(&vec![false; len]);
+            let mut bits = vec![false; len]; bits[len - 1] = true;
+            let b = IdpfInput::from_bools(&bits);
+            let r = std::panic::catch_unwind(|| Poplar1AggregationParam::try_from_prefixes(vec![a.clone(), b.clone()]));
+            match r {
+                Err(_) => println!("COUNTEREXAMPLE Poplar1AggregationParam::try_from_prefixes panics on two prefixes of {} bits", len),
+                Ok(Ok(p)) => {
+                    if len > 65536 { println!("COUNTEREXAMPLE Poplar1AggregationParam::try_from_prefixes accepts prefixes of {} bits (more than 65536)", len); }
+                    else if p.level() != len - 1 || p.prefixes().len() != 2 { println!("COUNTEREXAMPLE Poplar1AggregationParam::try_from_prefixes: prefixes of {} bits give level {} (want {})", len, p.level(), len - 1); }
+                }
+                Ok(Err(e)) => if len <= 65536 { println!("COUNTEREXAMPLE Poplar1AggregationParam::try_from_prefixes refuses two sorted distinct prefixes of {} bits (level {} is admissible): {}", len, len - 1, e); },
+            }
+        }
+    }
 }
